@@ -217,7 +217,8 @@ for _p in ("C06", "C08"):
 for _p in ("C07", "C13", "C15", "C16", "C18"):
     PROPS[_p]["tasks"].append("effects:no-shared-mutable-state")
 PROPS["C15"]["tasks"] += ["PriceLimitRule.setup"]
-PROPS["C16"]["tasks"] += ["TradingHaltRule.setup"]
+PROPS["C16"]["tasks"] += ["TradingHaltRule.setup", "TradingHaltRule.hook_registration"]
+PROPS["C13"]["tasks"] += ["TradingHaltRule.hook_registration"]
 PROPS["C14"]["tasks"] += ["Simulator._trigger_event_before_step_for_market", "Simulator._trigger_event_before_order", "SequentialRunner._iterate_market_updates[step]"] + RUNNER_ELEMS + REGISTRATION
 PROPS["C15"]["tasks"] += ["Simulator._trigger_event_before_order"] + RUNNER_ELEMS + REGISTRATION
 PROPS["C16"]["tasks"] += ["Simulator._trigger_event_after_execution", "Simulator._trigger_event_before_step_for_market", "SequentialRunner._iterate_market_updates[step]"] + RUNNER_ELEMS + REGISTRATION
